@@ -68,7 +68,10 @@ Inductive resp :=
 (* ghost history of the counters the barrier sums (Barrier.v): a send count increment, a receive count increment
    (a handler finished), a snapshot contributed to a count reduction, the result of a count reduction stored in [cur]
    (set_cur; the sentinel (3,4) at the start of a barrier is recorded too) *)
-Inductive gev := GSend | GRecv | GSnap (rc sc : Z) | GRes (v : Z * Z).
+Inductive gev := GSend | GRecv | GSnap (rc sc : Z) | GRes (v : Z * Z)
+  | GEnq (d : Z) (m : msg)        (* a message appended to the send buffer of rank d (enqueue) *)
+  | GResp (r : resp)              (* an MPI response consumed (set_oracle: used only by [ask]) *)
+  | GExec (u : Z).                (* a handler started (emit (NX u _ _)) *)
 
 (* ---- state --------------------------------------------------------------- *)
 Record st := {
@@ -109,7 +112,7 @@ Definition emit (e : event) (s : st) : st :=
      rcnt := rcnt s; scnt := scnt s; ictr := ictr s; ret := ret s; depth := depth s; masks := masks s; flags := flags s;
      shared := shared s; nbar := nbar s; inmain := inmain s; cur := cur s; prev := prev s; red_done := red_done s;
      oracle := oracle s; log := e :: log s; enq := enq s;
-     hist := match e with EIallreduce rc sc => GSnap rc sc :: hist s | _ => hist s end |}.
+     hist := match e with EIallreduce rc sc => GSnap rc sc :: hist s | NX u _ _ => GExec u :: hist s | _ => hist s end |}.
 
 Definition upd {A} (l : list A) (i : nat) (x : A) : list A :=
   firstn i l ++ match skipn i l with [] => [] | _ :: t => x :: t end.
@@ -138,8 +141,9 @@ Definition set_inmain v s := {| bufs := bufs s; sbb := sbb s; dq := dq s; sendq 
 Definition set_cur v s := {| bufs := bufs s; sbb := sbb s; dq := dq s; sendq := sendq s; pend := pend s; cbs := cbs s; intr := intr s; inprq := inprq s; rcnt := rcnt s; scnt := scnt s; ictr := ictr s; ret := ret s; depth := depth s; masks := masks s; flags := flags s; shared := shared s; nbar := nbar s; inmain := inmain s; cur := v; prev := prev s; red_done := red_done s; oracle := oracle s; log := log s; enq := enq s; hist := GRes v :: hist s |}.
 Definition set_prev v s := {| bufs := bufs s; sbb := sbb s; dq := dq s; sendq := sendq s; pend := pend s; cbs := cbs s; intr := intr s; inprq := inprq s; rcnt := rcnt s; scnt := scnt s; ictr := ictr s; ret := ret s; depth := depth s; masks := masks s; flags := flags s; shared := shared s; nbar := nbar s; inmain := inmain s; cur := cur s; prev := v; red_done := red_done s; oracle := oracle s; log := log s; enq := enq s; hist := hist s |}.
 Definition set_red_done v s := {| bufs := bufs s; sbb := sbb s; dq := dq s; sendq := sendq s; pend := pend s; cbs := cbs s; intr := intr s; inprq := inprq s; rcnt := rcnt s; scnt := scnt s; ictr := ictr s; ret := ret s; depth := depth s; masks := masks s; flags := flags s; shared := shared s; nbar := nbar s; inmain := inmain s; cur := cur s; prev := prev s; red_done := v; oracle := oracle s; log := log s; enq := enq s; hist := hist s |}.
-Definition set_oracle v s := {| bufs := bufs s; sbb := sbb s; dq := dq s; sendq := sendq s; pend := pend s; cbs := cbs s; intr := intr s; inprq := inprq s; rcnt := rcnt s; scnt := scnt s; ictr := ictr s; ret := ret s; depth := depth s; masks := masks s; flags := flags s; shared := shared s; nbar := nbar s; inmain := inmain s; cur := cur s; prev := prev s; red_done := red_done s; oracle := v; log := log s; enq := enq s; hist := hist s |}.
+Definition set_oracle v s := {| bufs := bufs s; sbb := sbb s; dq := dq s; sendq := sendq s; pend := pend s; cbs := cbs s; intr := intr s; inprq := inprq s; rcnt := rcnt s; scnt := scnt s; ictr := ictr s; ret := ret s; depth := depth s; masks := masks s; flags := flags s; shared := shared s; nbar := nbar s; inmain := inmain s; cur := cur s; prev := prev s; red_done := red_done s; oracle := v; log := log s; enq := enq s; hist := GResp (hd RUnit (oracle s)) :: hist s |}.
 Definition set_enq v s := {| bufs := bufs s; sbb := sbb s; dq := dq s; sendq := sendq s; pend := pend s; cbs := cbs s; intr := intr s; inprq := inprq s; rcnt := rcnt s; scnt := scnt s; ictr := ictr s; ret := ret s; depth := depth s; masks := masks s; flags := flags s; shared := shared s; nbar := nbar s; inmain := inmain s; cur := cur s; prev := prev s; red_done := red_done s; oracle := oracle s; log := log s; enq := v; hist := hist s |}.
+Definition set_hist v s := {| bufs := bufs s; sbb := sbb s; dq := dq s; sendq := sendq s; pend := pend s; cbs := cbs s; intr := intr s; inprq := inprq s; rcnt := rcnt s; scnt := scnt s; ictr := ictr s; ret := ret s; depth := depth s; masks := masks s; flags := flags s; shared := shared s; nbar := nbar s; inmain := inmain s; cur := cur s; prev := prev s; red_done := red_done s; oracle := oracle s; log := log s; enq := enq s; hist := v |}.
 
 (* an MPI call: log it, pop the response *)
 Definition ask (e : event) (s : st) (k : resp -> st -> res) : res :=
@@ -158,7 +162,7 @@ Definition locals_of (c : cfg) : list Z := local_ranks_of (c_p c) (c_me c / c_p 
 Definition enqueue (c : cfg) (d : Z) (m : msg) (s : st) : st :=
   let s1 := if match buf_at s d with [] => true | _ => false end then set_dq (dq s ++ [d]) s else s in
   let s2 := set_sbb (sbb s1 + wire c m) s1 in
-  set_enq ((d, m) :: enq s) (set_bufs (upd (bufs s2) (Z.to_nat d) (buf_at s2 d ++ [m])) s2).
+  set_hist (GEnq d m :: hist s) (set_enq ((d, m) :: enq s) (set_bufs (upd (bufs s2) (Z.to_nat d) (buf_at s2 d ++ [m])) s2)).
 
 Inductive proc :=
 | PActs (l : list act)
@@ -215,7 +219,7 @@ Fixpoint run (fuel : nat) (c : cfg) (p : proc) (s : st) : res :=
              go PBarrier (emit (NBI k) (set_nbar k s)) >>= fun s1 =>
              let s2 := emit (NBO k) s1 in
              Ok (emit (NS 1 (sbb s2) (pend s2) (length (dq s2)) (length (sendq s2))) s2)
-         | ACfb => ask ECfBarrier s (fun _ s1 => Ok s1)
+         | ACfb => ask ECfBarrier s (fun r s1 => match r with RUnit => Ok s1 | _ => err 9 s1 end)
          | ALp => go PLocalProgress s
          | AWu f => go (PWaitUntil f) s
          | ASf f => Ok (set_flags (f :: flags s) s)
@@ -223,7 +227,7 @@ Fixpoint run (fuel : nat) (c : cfg) (p : proc) (s : st) : res :=
          | AMoff => match masks s with [] => Ok s | b :: t => Ok (set_intr b (set_masks t s)) end
          | ACb id => Ok (set_cbs (cbs s ++ [id]) s)
          | AMut => Ok (set_shared (shared s + 1) s)
-         | AColl => ask EColl s (fun _ s1 => Ok s1)
+         | AColl => ask EColl s (fun r s1 => match r with RUnit => Ok s1 | _ => err 9 s1 end)
          end) >>= fun s' => go (PActs rest) s'
 
     (* ---------------- comm::async ---------------- *)
